@@ -625,7 +625,190 @@ def gen_plan(repo="/repo"):
     return "\n".join(out), errors
 
 
-GENERATORS = {"Kernels.v": gen_kernels, "Plan.v": gen_plan}
+# ----------------------------------------------------------------------------------------------
+# streaming call sites of base.py (T3): per method, the read_plan arguments, the per-block body
+# (kernel calls with their argument expressions), and the output length / finalisation expressions
+# ----------------------------------------------------------------------------------------------
+
+KERNEL_OUT = {  # kernel -> (positional index of the array it updates in place, arity)
+    "extract_tim": (1, 5), "extract_bpass": (1, 4), "dedisperse": (1, 7), "mask_channels": (0, 5), "subband": (1, 8),
+}
+SITE_ATTR = {"self.header.nchans": "nchans", "self.header.nsamples": "hdr_nsamples"}
+
+
+def _find_plan_loop(fn):
+    for node in ast.walk(fn):
+        if isinstance(node, ast.For) and isinstance(node.iter, ast.Call) and ast.unparse(node.iter.func) == "self.read_plan":
+            return node
+    raise Unsupported(f"{fn.name}: no loop over self.read_plan")
+
+
+def _ifexp_nsamps(e, cx):
+    """(A) if nsamps is None else B   ->  Coq if on the bool parameter nsamps_none"""
+    if isinstance(e, ast.IfExp) and ast.unparse(e.test) == "nsamps is None":
+        cx.add_extra("nsamps_none")
+        return f"(if (nsamps_none =? 1) then {expr(e.body, cx)} else {expr(e.orelse, cx)})"
+    return expr(e, cx)
+
+
+def gen_site(fn, arrays, pre_names, out_array, delays_name=None):
+    """translate one streaming reduction method; returns list of Coq definitions"""
+    name = fn.name
+    cx = Ctx(set(arrays), attr_map=dict(SITE_ATTR))
+    defs = []
+    loop = _find_plan_loop(fn)
+    # statements before the loop that define integer quantities we need
+    pre = {}
+    for s in fn.body:
+        if s is loop:
+            break
+        if isinstance(s, ast.Assign) and len(s.targets) == 1 and isinstance(s.targets[0], ast.Name) and s.targets[0].id in pre_names:
+            pre[s.targets[0].id] = s.value
+    missing = [n for n in pre_names if n not in pre]
+    if missing:
+        raise Unsupported(f"{name}: expected assignments not found: {missing}")
+    # read_plan keyword arguments
+    kw = {k.arg: k.value for k in loop.iter.keywords if k.arg is not None}
+    for need in ("gulp", "start", "nsamps"):
+        if need not in kw or ast.unparse(kw[need]) != need:
+            raise Unsupported(f"{name}: read_plan argument {need} changed: " + (ast.unparse(kw[need]) if need in kw else "missing"))
+    skip = ast.unparse(kw["skipback"]) if "skipback" in kw else "0"
+    tgt = ast.unparse(loop.target)
+    return cx, pre, kw, skip, tgt, loop
+
+
+def gen_base_sites(repo="/repo"):
+    out = ["(* GENERATED by tools/py2coq from sigpyproc/base.py -- do not edit *)",
+           "From Coq Require Import ZArith List Bool.", "Require Import SPP.Base.Rt SPP.Gen.Kernels.", "Import ListNotations.", "Open Scope Z_scope.", ""]
+    errors = []
+
+    def method(nm):
+        return _method(repo, "sigpyproc/base.py", "Filterbank", nm)
+
+    def kernel_call(stmt, cx, expect_kernel):
+        if not (isinstance(stmt, ast.Expr) and isinstance(stmt.value, ast.Call) and ast.unparse(stmt.value.func) == f"kernels.{expect_kernel}"):
+            raise Unsupported(f"expected a call of kernels.{expect_kernel}, found: " + ast.unparse(stmt)[:80])
+        if stmt.value.keywords:
+            raise Unsupported("keyword arguments in kernel call")
+        idx, arity = KERNEL_OUT[expect_kernel]
+        if len(stmt.value.args) != arity:
+            raise Unsupported(f"kernels.{expect_kernel} called with {len(stmt.value.args)} arguments")
+        return [expr(a, cx) for a in stmt.value.args], idx
+
+    # ---- collapse ----
+    try:
+        fn = method("collapse")
+        cx, pre, kw, skip, tgt, loop = gen_site(fn, ["data", "tim_ar"], ["tim_len", "tim_ar"], "tim_ar")
+        if skip != "0" or tgt != "(nsamps_r, ii, data)":
+            raise Unsupported(f"collapse: plan skipback/target changed: {skip} {tgt}")
+        if ast.unparse(pre["tim_ar"]) != "np.zeros(tim_len, dtype=np.float32)":
+            raise Unsupported("collapse: tim_ar allocation changed: " + ast.unparse(pre["tim_ar"]))
+        if len(loop.body) != 1:
+            raise Unsupported("collapse: loop body changed")
+        args, idx = kernel_call(loop.body[0], cx, "extract_tim")
+        tl = _ifexp_nsamps(pre["tim_len"], cx)
+        out.append("(* from Filterbank.collapse *)")
+        out.append(f"Definition collapse_len (hdr_nsamples start nsamps nsamps_none : Z) : Z := {tl}.")
+        out.append("Definition collapse_skipback : Z := 0.")
+        out.append(f"Definition collapse_block (data tim_ar : arr) (nchans nsamps_r ii gulp : Z) : arr :=\n  extract_tim_run {' '.join(args)}.")
+        ret = fn.body[-1]
+        rt = ast.unparse(ret)
+        m = re.search(r"new_header\((\{.*\})\)", rt, flags=re.S)
+        out.append(f"(* returned header update: {m.group(1) if m else rt} *)\n")
+        if not (m and "'nsamples': tim_len" in m.group(1)):
+            raise Unsupported("collapse: returned header does not set nsamples to tim_len: " + rt[:120])
+    except Unsupported as e:
+        errors.append(f"collapse: {e}"); out.append(f"(* UNSUPPORTED collapse: {str(e).replace('*)', '* )')} *)\n")
+    # ---- bandpass ----
+    try:
+        fn = method("bandpass")
+        cx, pre, kw, skip, tgt, loop = gen_site(fn, ["data", "bpass_ar"], ["bpass_ar", "num_samples"], "bpass_ar")
+        if skip != "0" or tgt != "(nsamps_r, _, data)":
+            raise Unsupported(f"bandpass: plan skipback/target changed: {skip} {tgt}")
+        if ast.unparse(pre["bpass_ar"]) != "np.zeros(self.header.nchans, dtype=np.float32)" or ast.unparse(pre["num_samples"]) != "0":
+            raise Unsupported("bandpass: initialisation changed")
+        if len(loop.body) != 2 or ast.unparse(loop.body[1]) != "num_samples += nsamps_r":
+            raise Unsupported("bandpass: loop body changed")
+        args, idx = kernel_call(loop.body[0], cx, "extract_bpass")
+        after = [ast.unparse(s) for s in fn.body[fn.body.index(loop) + 1:]]
+        if not after or after[0] != "bpass_ar /= num_samples":
+            raise Unsupported("bandpass: final division changed: " + (after[0] if after else "none"))
+        out.append("(* from Filterbank.bandpass; the final `bpass_ar /= num_samples` divides the accumulated sums by the samples seen *)")
+        out.append("Definition bandpass_skipback : Z := 0.")
+        out.append(f"Definition bandpass_block (data bpass_ar : arr) (num_samples nchans nsamps_r : Z) : arr * Z :=\n  (extract_bpass_run {' '.join(args)}, (num_samples + nsamps_r)).\n")
+    except Unsupported as e:
+        errors.append(f"bandpass: {e}"); out.append(f"(* UNSUPPORTED bandpass: {str(e).replace('*)', '* )')} *)\n")
+    # ---- dedisperse ----
+    try:
+        fn = method("dedisperse")
+        cx, pre, kw, skip, tgt, loop = gen_site(fn, ["data", "tim_ar", "chan_delays"], ["chan_delays", "max_delay", "gulp", "tim_len", "tim_ar"], "tim_ar")
+        if skip != "max_delay" or tgt != "(nsamps_r, ii, data)":
+            raise Unsupported(f"dedisperse: plan skipback/target changed: {skip} {tgt}")
+        if ast.unparse(pre["max_delay"]) != "int(chan_delays.max())" or ast.unparse(pre["chan_delays"]) != "self.header.get_dmdelays(dm)":
+            raise Unsupported("dedisperse: delay computation changed")
+        if ast.unparse(pre["tim_ar"]) != "np.zeros(tim_len, dtype=np.float32)":
+            raise Unsupported("dedisperse: tim_ar allocation changed")
+        if len(loop.body) != 1:
+            raise Unsupported("dedisperse: loop body changed")
+        args, idx = kernel_call(loop.body[0], cx, "dedisperse")
+        # names defined before tim_len that it may use
+        sel = None
+        for s in fn.body:
+            if isinstance(s, ast.Assign) and ast.unparse(s.targets[0]) == "nsamps_sel":
+                sel = s.value
+        cx2 = Ctx(set(), attr_map=dict(SITE_ATTR))
+        lets = ""
+        if sel is not None:
+            lets = f"let nsamps_sel := {_ifexp_nsamps(sel, cx2)} in "
+        out.append("(* from Filterbank.dedisperse *)")
+        out.append(f"Definition dedisperse_gulp (max_delay gulp : Z) : Z := {expr(pre['gulp'], cx2)}.")
+        out.append(f"Definition dedisperse_len (hdr_nsamples start nsamps nsamps_none max_delay : Z) : Z := {lets}{expr(pre['tim_len'], cx2)}.")
+        out.append("Definition dedisperse_skipback (max_delay : Z) : Z := max_delay.")
+        out.append(f"Definition dedisperse_block (data tim_ar chan_delays : arr) (max_delay nchans nsamps_r ii gulp : Z) : arr :=\n  dedisperse_run {' '.join(args)}.\n")
+    except Unsupported as e:
+        errors.append(f"dedisperse: {e}"); out.append(f"(* UNSUPPORTED dedisperse: {str(e).replace('*)', '* )')} *)\n")
+    # ---- read_chan ----
+    try:
+        fn = method("read_chan")
+        cx, pre, kw, skip, tgt, loop = gen_site(fn, ["data", "tim_ar"], ["tim_len", "tim_ar"], "tim_ar")
+        if skip != "0" or tgt != "(nsamps_r, ii, data)":
+            raise Unsupported(f"read_chan: plan skipback/target changed: {skip} {tgt}")
+        if ast.unparse(pre["tim_ar"]) != "np.empty(tim_len, dtype=np.float32)":
+            raise Unsupported("read_chan: tim_ar allocation changed")
+        body = [ast.unparse(s) for s in loop.body]
+        if len(body) != 2 or body[0] != "data_2d = data.reshape(nsamps_r, self.header.nchans)":
+            raise Unsupported("read_chan: loop body changed: " + "; ".join(body))
+        st = loop.body[1]
+        if not (isinstance(st, ast.Assign) and isinstance(st.targets[0], ast.Subscript) and ast.unparse(st.targets[0].value) == "tim_ar"
+                and isinstance(st.targets[0].slice, ast.Slice) and st.targets[0].slice.step is None and ast.unparse(st.value) == "data_2d[:, ichan]"):
+            raise Unsupported("read_chan: slice assignment changed: " + body[1])
+        lo, hi = expr(st.targets[0].slice.lower, cx), expr(st.targets[0].slice.upper, cx)
+        tl = _ifexp_nsamps(pre["tim_len"], cx)
+        out.append("(* from Filterbank.read_chan: tim_ar[lo:hi] = data.reshape(nsamps_r, nchans)[:, ichan]  (np.empty output: junk) *)")
+        out.append(f"Definition read_chan_len (hdr_nsamples start nsamps nsamps_none : Z) : Z := {tl}.")
+        out.append(f"Definition read_chan_block (data tim_ar : arr) (nchans nsamps_r ii gulp ichan : Z) : arr :=\n"
+                   f"  let lo := {lo} in let hi := {hi} in\n"
+                   f"  iter (Z.to_nat (hi - lo)) (fun k tim_ar => upd tim_ar (lo + k) (data (k * nchans + ichan))) tim_ar.\n")
+    except Unsupported as e:
+        errors.append(f"read_chan: {e}"); out.append(f"(* UNSUPPORTED read_chan: {str(e).replace('*)', '* )')} *)\n")
+    # ---- compute_stats: which sample count normalises the moments ----
+    try:
+        for nm in ("compute_stats", "compute_stats_basic"):
+            fn = method(nm)
+            txt = ast.unparse(fn)
+            if "bag = ChannelStats(self.header.nchans, nsamps_sel)" not in txt or \
+               "nsamps_sel = self.header.nsamples - start if nsamps is None else nsamps" not in txt:
+                raise Unsupported(f"{nm}: ChannelStats is not built with the number of selected samples")
+            if "bag.push_data(data, ii, mode=" not in txt:
+                raise Unsupported(f"{nm}: push_data call changed")
+        out.append("(* from Filterbank.compute_stats(_basic): ChannelStats(nchans, nsamps_sel), nsamps_sel = (hdr_nsamples - start) if nsamps is None else nsamps *)")
+        out.append("Definition stats_divisor (hdr_nsamples start nsamps nsamps_none : Z) : Z := (if (nsamps_none =? 1) then (hdr_nsamples - start) else nsamps).\n")
+    except Unsupported as e:
+        errors.append(f"compute_stats: {e}"); out.append(f"(* UNSUPPORTED compute_stats: {str(e).replace('*)', '* )')} *)\n")
+    return "\n".join(out), errors
+
+
+GENERATORS = {"Kernels.v": gen_kernels, "Plan.v": gen_plan, "BaseSites.v": gen_base_sites}
 
 # further generators live in tools/py2coq/gen_*.py, each exporting GENERATORS = {"File.v": fn(repo) -> (text, errors)}
 import glob as _glob
